@@ -148,12 +148,7 @@ func (c *control) readDir() {
 		case '#':
 			params = append(params, len(c.args)-c.argPos)
 		case 'v':
-			var p any
-			if 0 <= c.argPos {
-				p = c.args[c.argPos]
-				c.argPos++
-			}
-			params = append(params, p)
+			params = append(params, c.nextArg())
 		case '\'':
 			// The character after the quote is the parameter even if it
 			// is a directive, modifier, or separator character.
@@ -312,14 +307,10 @@ func (c *control) dirMoney(colon, at bool, params []any) {
 	w := c.getIntParam(2, params, 0, true)
 	padchar := c.getCharParam(3, params, []byte{' '})
 	var val float64
-	if 0 <= c.argPos {
-		arg := c.args[c.argPos]
-		c.argPos++
-		if r, ok := arg.(slip.Real); ok {
-			val = r.RealValue()
-		} else {
-			slip.ErrorPanic(c.scope, 0, "expected a real argument for directive at %d of %q", c.pos, c.str)
-		}
+	if r, ok := c.nextArg().(slip.Real); ok {
+		val = r.RealValue()
+	} else {
+		slip.ErrorPanic(c.scope, 0, "expected a real argument for directive at %d of %q", c.pos, c.str)
 	}
 	if colon {
 		if val < 0.0 {
@@ -535,6 +526,9 @@ func (c *control) dirMove(colon, at bool, params []any) {
 	default:
 		c.argPos += n
 	}
+	if c.argPos < 0 {
+		slip.ErrorPanic(c.scope, 0, "move directive goes back past the first argument at %d of %q", c.pos, c.str)
+	}
 }
 
 func (c *control) dirCall(colon, at bool, params []any) {
@@ -552,10 +546,7 @@ func (c *control) dirCall(colon, at bool, params []any) {
 	fi := slip.MustFindFunc(string(name)) // panics if not found
 	args := make(slip.List, 4)
 	args[0] = &slip.OutputStream{Writer: c}
-	if 0 <= c.argPos {
-		args[1] = c.args[c.argPos]
-		c.argPos++
-	}
+	args[1] = c.nextArg()
 	if colon {
 		args[2] = slip.True
 	}
@@ -797,10 +788,7 @@ func (c *control) dirA(colon, at bool, params []any) {
 	p.Readably = false
 	if !colon && !at && len(params) == 0 { // bare ~A, the most common case
 		var arg slip.Object
-		if 0 <= c.argPos {
-			arg = c.args[c.argPos]
-			c.argPos++
-		}
+		arg = c.nextArg()
 		if ss, ok := arg.(slip.String); ok {
 			c.out = append(c.out, ss...)
 		} else if sa, ok := arg.(slip.ScopedAppender); ok {
@@ -822,10 +810,7 @@ func (c *control) dirC(colon, at bool, params []any) {
 		arg slip.Character
 		ok  bool
 	)
-	if 0 <= c.argPos {
-		arg, ok = c.args[c.argPos].(slip.Character)
-		c.argPos++
-	}
+	arg, ok = c.nextArg().(slip.Character)
 	if !ok {
 		slip.ErrorPanic(c.scope, 0, "character directive expected a character argument at %d of %q", c.pos, c.str)
 	}
@@ -854,10 +839,7 @@ func (c *control) dirInt(colon, at bool, params []any, base int) {
 		out []byte
 		neg bool
 	)
-	if 0 <= c.argPos {
-		arg = c.args[c.argPos]
-		c.argPos++
-	}
+	arg = c.nextArg()
 	mincol := 0
 	padchar := []byte{' '}
 	commachar := []byte{','}
@@ -926,10 +908,7 @@ func (c *control) dirInt(colon, at bool, params []any, base int) {
 
 func (c *control) getEFGarg(ff *floatFormatter) {
 	var arg slip.Object
-	if 0 <= c.argPos {
-		arg = c.args[c.argPos]
-		c.argPos++
-	}
+	arg = c.nextArg()
 	// golang big.Float fails to preserve digits when printing. The last few
 	// become noise even with a very high precision so no attempt is made to
 	// support long-float other that as a double-float.
@@ -1201,7 +1180,7 @@ func (c *control) dirP(colon, at bool, params []any) {
 }
 
 func (c *control) dirR(colon, at bool, params []any) {
-	if len(c.args) <= c.argPos {
+	if c.argPos < 0 || len(c.args) <= c.argPos {
 		slip.ErrorPanic(c.scope, 0, "missing argument for Radix directive at %d of %q", c.pos, c.str)
 	}
 	if 0 < len(params) && params[0] != nil {
@@ -1353,10 +1332,7 @@ func (c *control) dirAS(colon, at bool, params []any, p *slip.Printer) {
 		out []byte
 		pad []byte
 	)
-	if 0 <= c.argPos {
-		arg = c.args[c.argPos]
-		c.argPos++
-	}
+	arg = c.nextArg()
 	switch ta := arg.(type) {
 	case nil:
 		if colon {
@@ -1463,10 +1439,7 @@ func (c *control) dirT(colon, at bool, params []any) {
 
 func (c *control) dirW(colon, at bool, params []any) {
 	var arg slip.Object
-	if 0 <= c.argPos {
-		arg = c.args[c.argPos]
-		c.argPos++
-	}
+	arg = c.nextArg()
 	p := *slip.DefaultPrinter()
 	p.ScopedUpdate(c.scope)
 	if colon {
@@ -1738,6 +1711,18 @@ func (c *control) dirPage(colon, at bool, params []any) {
 	for ; 0 < n; n-- {
 		c.out = append(c.out, '\f')
 	}
+}
+
+// nextArg returns the next argument and moves past it. An error is raised if
+// there is no argument left.
+func (c *control) nextArg() (arg slip.Object) {
+	if c.argPos < 0 || len(c.args) <= c.argPos {
+		slip.ErrorPanic(c.scope, 0, "missing argument for directive at %d of %q", c.pos, c.str)
+	}
+	arg = c.args[c.argPos]
+	c.argPos++
+
+	return
 }
 
 func (c *control) getIntParam(pos int, params []any, defVal int, notNeg bool) int {
